@@ -115,6 +115,12 @@ def _case(rng):
             return ['bin', 'div', expr(depth - 1), ['lit', str(Fraction(rng.choice([1, 2, 4, -2, 3]), 1))]]
         return ['bin', op, expr(depth - 1), expr(depth - 1)]
     e = ['bin', rng.choice(['add', 'sub', 'mul']), ['var', same[0]['name']], expr(2)]
+    k = rng.random() if tv['dims'] else 1.0      # numpy.ma.masked_invalid itself fails on 0-d arrays
+    if k < 0.2:
+        e = ['mlt', str(rng.randint(-3, 3)), e]
+    elif k < 0.4:
+        # a quotient by a variable (zeros included), made safe with masked_invalid
+        e = ['minv', ['bin', 'div', e, ['var', rng.choice(same)['name']]]]
     return dict(kind=kind, spec=spec, expr=e, target='NEWVAR', coords=coords)
 
 
@@ -131,6 +137,10 @@ def _py(e):
         return '(%r)' % float(q)
     if e[0] == 'neg':
         return '(-%s)' % _py(e[1])
+    if e[0] == 'mlt':
+        return 'np.ma.masked_less(%s, %r)' % (_py(e[2]), float(Fraction(e[1])))
+    if e[0] == 'minv':
+        return 'np.ma.masked_invalid(%s)' % _py(e[1])
     return '(%s %s %s)' % (_py(e[2]), OPS[e[1]], _py(e[3]))
 
 
@@ -139,6 +149,10 @@ def _flat(e):
         return [e[0], e[1]]
     if e[0] == 'neg':
         return ['neg'] + _flat(e[1])
+    if e[0] == 'minv':
+        return ['minv'] + _flat(e[1])
+    if e[0] == 'mlt':
+        return ['mlt', e[1]] + _flat(e[2])
     return ['bin', e[1]] + _flat(e[2]) + _flat(e[3])
 
 
@@ -309,6 +323,7 @@ def oracle(case, res):
     spec = case['spec']
     env = {v['name']: np.ma.masked_array(_np(spec, v)) for v in spec['vars']}
     with np.errstate(all='ignore'):
+        env['np'] = np
         want = np.ma.masked_array(eval(_py(case['expr']), {}, env))
     g = got['vars'].get(case['target'])
     if g is None:
@@ -324,8 +339,10 @@ def _first_var(e):
         return e[1]
     if e[0] == 'lit':
         return None
-    if e[0] == 'neg':
+    if e[0] in ('neg', 'minv'):
         return _first_var(e[1])
+    if e[0] == 'mlt':
+        return _first_var(e[2])
     return _first_var(e[2]) or _first_var(e[3])
 
 
@@ -343,8 +360,10 @@ def _all_vars(e):
         return [e[1]]
     if e[0] == 'lit':
         return []
-    if e[0] == 'neg':
+    if e[0] in ('neg', 'minv'):
         return _all_vars(e[1])
+    if e[0] == 'mlt':
+        return _all_vars(e[2])
     return _all_vars(e[2]) + _all_vars(e[3])
 
 
